@@ -7,6 +7,9 @@
    ops (Q,S):  E v -> -     D -> v,t | 0,f     P -> v,t | 0,f     C v -> t|f     N -> size     Z -> t|f
    ops (SQ):   E v -> idx   D -> v,idx | 0,-1  P -> v,idx         C v -> idx     N -> size     Z -> t|f
                V -> v0,v1,... | -
+   W (SQ):     aliasing probe: the harness scribbles over the slice returned by Values(); result = Values "/" t|f
+               (flag: the previously handed-out slice was left alone); the model's Values returns a value, so
+               W is SValues on the model and the flag is always t
    X (all):    representation snapshot (verif hook): Q nodeSize,listSize,frontIndex,rearIndex,rearPos;block;...
                S nodeSize,listSize,topIndex;block;...   SQ front,rear,len    -- compared as kind=fidelity
    The model is polymorphic in the value type; it is instantiated with OCaml ints, zero = 0.
@@ -166,7 +169,9 @@ let () =
             | SQ q ->
               let o = (match toks.(0) with
                 | "E" -> SEnqueue (arg 1) | "D" -> SDequeue | "P" -> SPeek | "C" -> SContains (arg 1)
-                | "N" -> SSize | "Z" -> SIsEmpty | "V" -> SValues | t -> failwith ("bad op " ^ t)) in
+                | "N" -> SSize | "Z" -> SIsEmpty | "V" | "W" -> SValues | t -> failwith ("bad op " ^ t)) in
+              let probe = toks.(0) = "W" in
+              if probe then bump "values_aliasing_probes";
               (match sq_step 0 eqb q o with
                | Ok (q', r) ->
                  (match o with
@@ -175,7 +180,7 @@ let () =
                   | SContains _ -> (match r with SOIdx (Zneg _) -> bump "contains_false" | _ -> bump "contains_true")
                   | _ -> ());
                  let sz = len q'.sq_list in if sz > !maxsize then maxsize := sz;
-                 st := SQ q'; sout_str r
+                 st := SQ q'; if probe then sout_str r ^ "/t" else sout_str r
                | Panic -> dead := true; "PANIC"
                | Hang -> dead := true; "HANG")
           in
